@@ -8,6 +8,7 @@ import (
 	"path/filepath"
 	"sort"
 	"strings"
+	"sync"
 	"sync/atomic"
 	"time"
 
@@ -209,10 +210,20 @@ func (r *persistRunner) Exec(line string) string {
 		return r.dump("after rm " + hx(k))
 	case "tick":
 		// let exactly one timer flush through on every underlying persister
+		var wg sync.WaitGroup
+		var unobserved int32
 		for _, g := range r.gates {
-			if !letTimerFlush(g, 30*time.Second) {
-				r.tag("tick-unobserved")
-			}
+			wg.Add(1)
+			go func(g *timerGate) {
+				defer wg.Done()
+				if !letTimerFlush(g, 30*time.Second) {
+					atomic.AddInt32(&unobserved, 1)
+				}
+			}(g)
+		}
+		wg.Wait()
+		if unobserved > 0 {
+			r.tag("tick-unobserved")
 		}
 		r.tag("tick")
 		return r.dump("after tick")
